@@ -38,6 +38,7 @@ def _configs(tier):
     integs = FAMILIES_QUICK if tier == 'quick' else ALL
     for integ in integs:
         out.append({'history': 'repeat', 'integrator': integ, 'N': 2, 'feas_timeout_ms': 1500, 'budget_s': 280 if tier == 'quick' else 3000})
+        out.append({'history': 'repeat', 'integrator': integ, 'N': 2, 'linear': True, 'feas_timeout_ms': 1500, 'budget_s': 280 if tier == 'quick' else 3000})
         out.append({'history': 'saves', 'integrator': integ, 'N': 2, 'S': 1, 'feas_timeout_ms': 1500, 'budget_s': 280 if tier == 'quick' else 3000})
         if tier != 'quick' or integ in ('explicit', 'gear'):
             out.append({'history': 'saves', 'integrator': integ, 'N': 2, 'S': 2})
@@ -51,12 +52,13 @@ def _configs(tier):
 class Problem:
     """the shared stub problem (same coefficients for every history)"""
 
-    def __init__(self, B, n=2):
+    def __init__(self, B, n=2, linear=False):
         self.B = B
         self.n = n
+        self.linear = linear        # linear right-hand side and model.islinear = 1 (the integrators then cache their Jacobian)
         self.al = [B.var('al%d' % i) for i in range(n)]
         self.be = [B.var('be%d' % i, -1.0, 1.0) for i in range(n)]
-        self.ga = B.var('ga', -1.0, 1.0)
+        self.ga = B.var('ga', -1.0, 1.0) if not linear else B.const(0)
         self.de = B.var('de', -1.0, 1.0)
         self.tau0 = B.pos('tau0', 0.1, 0.5)
         self.tau1 = B.pos('tau1', 0.0, 0.5)
@@ -71,13 +73,13 @@ class Problem:
 
     def make(self, integ):
         B = self.B
-        model = stubs.Model(1, 0)
+        model = stubs.Model(1, 1 if self.linear else 0)
         mesh = stubs.Mesh(B, self.n, vol=self.vol)
         disc = stubs.RHSStub(B, self.n, 1, fn=self.rhs)
         prob = self
 
         def calc_timestep(f, cond):
-            d = prob.tau0 + prob.tau1 * f.data[0][0] * f.data[0][0]
+            d = cond * (prob.tau0 + (prob.tau1 * f.data[0][0] * f.data[0][0] if not prob.linear else 0))
             disc.dts.append(d)
             return B.array([d])
         disc.calc_timestep = calc_timestep
@@ -95,7 +97,7 @@ def _same(B, name, fa, sa, fb, sb, n):
 
 
 def harness(cfg, B):
-    P_ = Problem(B)
+    P_ = Problem(B, linear=bool(cfg.get('linear')))
     integ = cfg['integrator']
     h = cfg['history']
     N = cfg['N']
@@ -118,7 +120,7 @@ def harness(cfg, B):
     fref = sref.Qn
     if h == 'repeat':
         s2, m2, me2 = P_.make(integ)
-        s2.solve(P_.field(m2, me2), B.const(1), stop={'maxit': 1})        # leaves whatever state a previous call leaves
+        s2.solve(P_.field(m2, me2), B.const(Fraction(1, 2)), stop={'maxit': 1})        # another CFL number: leaves whatever a previous call leaves
         r2 = s2.solve(P_.field(m2, me2), B.const(1), stop={'maxit': N})
         _same(B, 'second-solve-on-same-object=fresh-solve', r2[-1], s2, fref, sref, P_.n)
         r3 = s2.solve(P_.field(m2, me2), B.const(1), stop={'maxit': N})
